@@ -220,12 +220,11 @@ def rule_R2(ctx, prj, fi: FuncInfo, sites, structural=True):
                 ctx.viol("R2", "get_headers/follow-slice", gh.site(n), f"follow-up is matched from {low}, not from the exclusive end")
 
 
-def rule_R2_evaluated(ctx, prj) -> bool:
-    """get_headers interpreted through the repo's engine on a small token list: the header's range is (start, exclusive end) of
-    its match, the name is a token of that match, and the follow-up is matched from the exclusive end"""
+def headers_evaluated(prj):
+    """-> [(with follow-up, [(name, start, end)], wanted)] of get_headers interpreted through the repo's engine; raises Unknown & co."""
     from ..absint import MiniInterp, PyRaise, Sym, Unknown, make_token
     gh = prj.func("codelimit.common.scope.scope_utils:get_headers")
-    try:
+    if True:
         it = MiniInterp(prj, max_steps=2_000_000, max_depth=80)
         toks = [("Name", "x"), ("Name", "f"), ("Punctuation", "("), ("Name", "a"), ("Punctuation", ")"), ("Punctuation", "{"),
                 ("Name", "y"), ("Name", "g"), ("Punctuation", "("), ("Punctuation", ")"), ("Punctuation", ";"),
@@ -250,6 +249,16 @@ def rule_R2_evaluated(ctx, prj) -> bool:
                     nmv = nm.fields.get("value")
                 got.append((nmv, tr.fields.get("start"), tr.fields.get("end")))
             res.append((follow is not None, got, want))
+    return res
+
+
+def rule_R2_evaluated(ctx, prj) -> bool:
+    """get_headers interpreted through the repo's engine on a small token list: the header's range is (start, exclusive end) of
+    its match, the name is a token of that match, and the follow-up is matched from the exclusive end"""
+    from ..absint import PyRaise, Unknown
+    gh = prj.func("codelimit.common.scope.scope_utils:get_headers")
+    try:
+        res = headers_evaluated(prj)
     except (Unknown, PyRaise, AnalysisError, AttributeError, KeyError) as e:
         ctx.info(f"R2: get_headers not evaluable through the engine ({type(e).__name__}: {e}); its use of the match end is read syntactically")
         return False
